@@ -1913,6 +1913,15 @@ def correspondence(ctx):
     recs, d_ep, viol = run_cases(cases)
     dis += d_ep
     ctx.c20_violations = viol
+    # 4. the compiled analysis on every entry point x every configuration that occurred (concrete replay if a
+    #    model edit ever makes `all_entry_points_safe` fail)
+    cfgs = []
+    for c in cases:
+        if c.cfg not in cfgs:
+            cfgs.append(c.cfg)
+    for row in run_driver([{"op": "heap_safe_all", "cfgs": cfgs}])[0]:
+        for i in row["rejected"]:
+            dis.append({"what": f"the ownership analysis rejects the model of entry point {row['ep']}", "cfg": cfgs[i]})
     dist = {"sites": scan["distribution"], "primitives": dist_prim, "entry_points": {}, "layouts": {}, "errors": {}}
     distinct = set()
     for r in recs:
@@ -2093,6 +2102,114 @@ def directed(ctx):
     return 5, viol
 
 
+def extra_calls(rng, layouts, full):
+    """public entry points that are searched only (no Lean program of their own): (key, roles, thunk)"""
+    gs = _gs()
+    import tempfile
+    out = []
+    n = 6
+    model = gs.Exponential(dim=2, var=2.0, len_scale=3.0, nugget=0.1)
+    opts = norm_options(True)
+    for lay in layouts:
+        opt = opts[int(rng.randint(len(opts)))]
+        kw = dict(mean=opt.get("mean"), trend=opt.get("trend"), normalizer=opt.get("normalizer"))
+        x, y = mk([0.0, 1.0, 2.0], lay), mk([0.0, 1.5], lay)
+        pos = mk(_pos2(rng, n), lay)
+        # structured / unstructured shortcuts, vector fields, set_pos
+        srf = gs.SRF(model, seed=3, mode_no=16, **kw)
+        out.append(("SRF.structured", {"x": x, "y": y}, lambda srf=srf, x=x, y=y: srf.structured((x, y), seed=1)))
+        out.append(("SRF.unstructured", {"pos": pos}, lambda srf=srf, pos=pos: srf.unstructured(pos, seed=1)))
+        vsrf = gs.SRF(gs.Gaussian(dim=2), generator="VectorField", seed=3, mode_no=16)
+        out.append(("SRF[VectorField].__call__", {"pos": pos}, lambda vsrf=vsrf, pos=pos: vsrf(pos, seed=2)))
+        out.append(("SRF[VectorField].structured", {"x": x, "y": y}, lambda vsrf=vsrf, x=x, y=y: vsrf((x, y), seed=2, mesh_type="structured")))
+        fou = gs.SRF(gs.Gaussian(dim=2), generator="Fourier", period=[8.0, 8.0], mode_no=[4, 4], seed=3, **kw)
+        out.append(("SRF[Fourier].__call__", {"pos": pos}, lambda fou=fou, pos=pos: fou(pos, seed=2)))
+        fld = gs.field.Field(model, **kw)
+        out.append(("Field.set_pos", {"pos": pos}, lambda fld=fld, pos=pos: fld.set_pos(pos)))
+        vals = mk(np.round(rng.uniform(1, 9, size=6)), lay)
+        out.append(("Field.structured(field=)", {"x": x, "y": y, "field": vals},
+                    lambda fld=fld, x=x, y=y, vals=vals: fld.structured((x, y), field=vals)))
+        # meshio
+        try:
+            import meshio
+            pts = mk(np.array([[0.0, 0.0], [1.0, 0.0], [1.0, 1.0], [0.0, 1.0], [2.0, 0.5]]), lay if lay != "list" else "alias")
+            cells = [("triangle", np.array([[0, 1, 2], [0, 2, 3], [1, 4, 2]]))]
+            for pk in ("points", "centroids"):
+                mesh = meshio.Mesh(pts, cells)
+                out.append((f"SRF.mesh[{pk}]", {"points": mesh.points, "cells": mesh.cells[0].data},
+                            lambda srf=srf, mesh=mesh, pk=pk: srf.mesh(mesh, points=pk, seed=1)))
+        except ImportError:
+            pass
+        # kriging variants
+        cp = mk(_pos2(rng, 5), lay)
+        cv = mk(np.round(rng.uniform(4, 9, size=5)), lay)
+        for kname, kkw in (("exact", {"exact": True}), ("inv", {"pseudo_inv": False}), ("pinvh", {"pseudo_inv_type": "pinvh"}),
+                           ("cond_err=0.05", {"cond_err": 0.05}), ("fit_variogram", {"fit_variogram": True})):
+            def kcall(cp=cp, cv=cv, kkw=kkw, pos=pos):
+                k = gs.krige.Ordinary(gs.Gaussian(dim=2, var=2.0, len_scale=4.0, nugget=0.1), cp, cv, **kkw)
+                k(pos, chunk_size=2)
+                k.get_mean()
+                k.set_condition()
+                return k(pos, only_mean=True)
+            out.append((f"Krige[{kname}]", {"condPos": cp, "condVal": cv, "pos": pos}, kcall))
+        drift = mk(np.round(rng.uniform(1, 5, size=(2, 5))), lay)
+        tdrift = mk(np.round(rng.uniform(1, 5, size=(2, n))), lay)
+
+        def edk(cp=cp, cv=cv, drift=drift, tdrift=tdrift, pos=pos):
+            k = gs.krige.ExtDrift(gs.Gaussian(dim=2, var=2.0, len_scale=4.0), cp, cv, drift)
+            r = k(pos, ext_drift=tdrift, chunk_size=4)
+            c = gs.CondSRF(k, seed=1, mode_no=16)
+            c(pos, ext_drift=tdrift, seed=4)
+            return r
+        out.append(("ExtDrift[2 drifts]+CondSRF", {"condPos": cp, "condVal": cv, "extDrift": drift, "targetDrift": tdrift, "pos": pos}, edk))
+        # variograms on structured meshes, other estimators / sampling
+        sf = mk(np.round(rng.uniform(1, 9, size=(3, 2))), lay)
+        out.append(("vario_estimate[structured]", {"x": x, "y": y, "field": sf},
+                    lambda x=x, y=y, sf=sf: gs.vario_estimate((x, y), sf, mesh_type="structured", estimator="cressie")))
+        ang = mk(np.array([0.5]), lay)
+        f1 = mk(np.round(rng.uniform(1, 9, size=n)), lay)
+        out.append(("vario_estimate[angles]", {"pos": pos, "field": f1, "angles": ang},
+                    lambda pos=pos, f1=f1, ang=ang: gs.vario_estimate(pos, f1, angles=ang, bandwidth=2.0, fit_normalizer=True,
+                                                                     normalizer=gs.normalizer.BoxCox)))
+        # fitting with every array-like option
+        xs = mk(np.arange(1.0, 9.0), lay)
+        ys = mk(np.round(2.0 * (1 - np.exp(-np.arange(1.0, 9.0) / 3.0)) * 16) / 16, lay)
+        ws = mk(np.arange(1.0, 9.0), lay if lay != "list" else "alias")
+
+        def fit(xs=xs, ys=ys, ws=ws):
+            m = gs.Stable(dim=2)
+            m.fit_variogram(xs, ys, weights=ws, init_guess={"len_scale": 2.0, "default": "current"}, return_r2=True,
+                            curve_fit_kwargs={"ftol": 1e-6})
+            m.fit_variogram(xs, ys, weights="inv", nugget=False, sill=2.0)
+            return m.fit_variogram(xs, ys, weights=lambda v: 1 / (1 + v), loss="soft_l1")
+        out.append(("CovModel.fit_variogram[options]", {"xData": xs, "yData": ys, "weights": ws}, fit))
+        # grids and vtk export
+        t = mk([0.0, 1.0], lay)
+        out.append(("generate_st_grid", {"pos": pos, "time": t}, lambda pos=pos, t=t: gs.generate_st_grid(pos, t)))
+        out.append(("generate_grid", {"x": x, "y": y}, lambda x=x, y=y: gs.generate_grid([x, y])))
+        if isinstance(x, np.ndarray):
+            tmpd = tempfile.mkdtemp(prefix="c20vtk")
+            f2 = mk(np.round(rng.uniform(1, 9, size=(3, 2))), lay)
+            out.append(("vtk_export_structured", {"x": x, "y": y, "field": f2},
+                        lambda x=x, y=y, f2=f2, tmpd=tmpd: gs.vtk_export_structured(os.path.join(tmpd, "s"), (x, y), {"f": f2})))
+            pu = mk(_pos2(rng, n), lay)
+            fu = mk(np.round(rng.uniform(1, 9, size=n)), lay)
+            out.append(("vtk_export_unstructured", {"pos": pu, "field": fu},
+                        lambda pu=pu, fu=fu, tmpd=tmpd: gs.vtk_export_unstructured(os.path.join(tmpd, "u"), pu, fu)))
+            out.append(("Field.vtk_export", {"pos": pos}, lambda srf=srf, pos=pos, tmpd=tmpd: (srf(pos, seed=1), srf.vtk_export(os.path.join(tmpd, "f")))))
+        # model helpers with array arguments
+        m3 = gs.Gaussian(dim=3, len_scale=[3.0, 2.0, 1.0], angles=[0.3, 0.2, 0.1])
+        p3 = mk(np.round(rng.uniform(0, 5, size=(3, 4)) * 2) / 2, lay)
+        out.append(("CovModel.cov_spatial/isometrize/main_axes", {"pos": p3},
+                    lambda m3=m3, p3=p3: (m3.cov_spatial(p3), m3.vario_spatial(p3), m3.cor_spatial(p3), m3.isometrize(p3), m3.anisometrize(p3),
+                                          m3.main_axes(), m3.vario_axis(p3[0], 1), m3.cov_axis(p3[0], 2), m3.cor_axis(p3[0], 0))))
+        bnd = mk([0.5, 4.0], lay)
+        out.append(("CovModel.set_arg_bounds", {"bounds": bnd}, lambda bnd=bnd: gs.Gaussian(dim=2).set_arg_bounds(len_scale=bnd)))
+        ls = mk([3.0, 2.0, 1.0], lay)
+        out.append(("CovModel(len_scale=array)", {"lenScale": ls}, lambda ls=ls: gs.Matern(dim=3, len_scale=ls, nu=1.5).len_scale_vec))
+    return out
+
+
 def search(ctx, deep=False):
     rng = np.random.RandomState(ctx.seed + 200)
     ev0, viol = directed(ctx)
@@ -2102,6 +2219,7 @@ def search(ctx, deep=False):
     layouts = ["ro", "fortran", "alias"] if ctx.quick and not deep else ["ro", "fortran", "alias", "strided", "i64"]
     cases = all_cases(rng, layouts, full=(not ctx.quick) or deep)
     n = 0
+    errs = {}
     for c in cases:
         c.layouts = dict(getattr(c, "layouts", {}))
         mutated, outs, err, mem = c.observe()
@@ -2111,6 +2229,29 @@ def search(ctx, deep=False):
                          "case": c.describe()})
         if err and "read-only" in err:
             viol.append({"key": f"aliasing:{c.key}:readonly", "what": f"{c.entry} writes into a read-only input ({err})", "case": c.describe()})
+    import shutil
+    import tempfile
+    for key, roles, thunk in extra_calls(rng, layouts, (not ctx.quick) or deep):
+        before = {r: snap(o) for r, o in roles.items()}
+        err = None
+        with warnings.catch_warnings():
+            warnings.simplefilter("ignore")
+            try:
+                thunk()
+            except Exception as e:   # noqa: BLE001
+                err = f"{type(e).__name__}: {str(e)[:100]}"
+        n += 1
+        for r, o in roles.items():
+            if snap(o) != before[r]:
+                viol.append({"key": f"aliasing:{key}:{r}", "what": f"{key} changed the caller's '{r}'",
+                             "case": {"entry": key, "roles": {k: np.asarray(np.ma.getdata(v)).tolist() for k, v in roles.items()}}})
+        if err and "read-only" in err:
+            viol.append({"key": f"aliasing:{key}:readonly", "what": f"{key} writes into a read-only input ({err})", "case": {"entry": key}})
+        elif err:
+            errs[key + ": " + err.split(":")[0]] = errs.get(key + ": " + err.split(":")[0], 0) + 1
+    for d in os.listdir(tempfile.gettempdir()):
+        if d.startswith("c20vtk"):
+            shutil.rmtree(os.path.join(tempfile.gettempdir(), d), ignore_errors=True)
     ev2, v2 = history_search(ctx, ctx.scale(40, 400) * (3 if deep else 1), ctx.scale(12, 25))
     viol += v2
     seen, uniq = set(), []
@@ -2121,4 +2262,5 @@ def search(ctx, deep=False):
     return {"evaluations": ev0 + n + ev2, "violations": uniq[:10],
             "summary": f"{ev0} replayed findings; {n} calls of the real API over entry points x roles x layouts {layouts} x options with byte "
                        f"snapshots of every caller array and stored result (read-only inputs make silent writes raise); {ev2} steps of random "
-                       f"store/transform/krige/condition histories in which every array ever passed, returned or stored must keep its bytes"}
+                       f"store/transform/krige/condition histories in which every array ever passed, returned or stored must keep its bytes",
+            "errors_of_extra_calls": errs}
